@@ -483,6 +483,8 @@ def check_pem(ctx, oid="C14.3"):
     evd = ctx.evaluator(opaque={"bits.pem.decode_pem", "bits.pem.parse_asn1"})
     sd = evd.run(fd)
     rets = sd.returns()
+    if len(rets) != 2:
+        rets = rules.leaf_returns(sd)  # one exit whose value is chosen by the document's shape counts like the two returns it merges
     R.check(oid, "DECISION-TABLE", fd, "decoder: private branch, public branch", len(rets) == 2, "pem_decode_key has %d success exits" % len(rets))
     raises = sd.raises()
     R.check(oid, "DECISION-TABLE", fd, "decoder rejects only unidentified documents", len(raises) == 1 and raises[0].exc == "ValueError",
@@ -511,7 +513,7 @@ def check_pem(ctx, oid="C14.3"):
     # discriminators
     priv = [e for e in rets if isinstance(e.value, (list, tuple)) and len(e.value) == 2]
     if priv and 32 in trees:
-        g = [x for x in priv[0].guard if isinstance(x, T) and x.op == "cmp"]
+        g = [x for x in list(priv[0].guard) + list(getattr(priv[0], "facts", ())) if isinstance(x, T) and x.op == "cmp"]  # (a leaf of a merged return carries its condition as a fact)
         okd = any(x.args[0] == "eq" and x.args[2] == b"\x01" and _navigate([trees[32]], _idx_path(x.args[1]) or ()) == b"\x01" for x in g)
         R.check(oid, "LAYOUT", fd, "private branch keyed on the version INTEGER 01", okd, "private-key discriminator does not read the encoder's version node")
 
